@@ -200,4 +200,80 @@ def JTables.ofC (T : Tables α) : JTables α where
   Auger_Rates_arr := jflat2 121 996 T.Auger_Rates                                                              -- pr_data_java.c:1112  Xraylib.java:290
 
 end
+/-! projections of `JTables.ofC` (so that proofs need not unfold the whole structure) -/
+section
+variable {α : Type} [LT α] [DecidableLT α] [OfScientific α] (T : Tables α)
+theorem ofC_ZMAX : (JTables.ofC T).ZMAX = Hdr.ZMAX := rfl
+theorem ofC_SHELLNUM : (JTables.ofC T).SHELLNUM = Hdr.SHELLNUM := rfl
+theorem ofC_SHELLNUM_K : (JTables.ofC T).SHELLNUM_K = Hdr.SHELLNUM_K := rfl
+theorem ofC_SHELLNUM_A : (JTables.ofC T).SHELLNUM_A = Hdr.SHELLNUM_A := rfl
+theorem ofC_TRANSNUM : (JTables.ofC T).TRANSNUM = Hdr.TRANSNUM := rfl
+theorem ofC_LINENUM : (JTables.ofC T).LINENUM = Hdr.LINENUM := rfl
+theorem ofC_AUGERNUM : (JTables.ofC T).AUGERNUM = Hdr.AUGERNUM := rfl
+theorem ofC_RE2 : (JTables.ofC T).RE2 = Hdr.RE2 := rfl
+theorem ofC_MEC2 : (JTables.ofC T).MEC2 = Hdr.MEC2 := rfl
+theorem ofC_AVOGNUM : (JTables.ofC T).AVOGNUM = Hdr.AVOGNUM := rfl
+theorem ofC_KEV2ANGST : (JTables.ofC T).KEV2ANGST = Hdr.KEV2ANGST := rfl
+theorem ofC_R_E : (JTables.ofC T).R_E = Hdr.R_E := rfl
+theorem ofC_AtomicWeight_arr : (JTables.ofC T).AtomicWeight_arr = ⟨121, T.AtomicWeight_arr⟩ := rfl
+theorem ofC_ElementDensity_arr : (JTables.ofC T).ElementDensity_arr = ⟨121, T.ElementDensity_arr⟩ := rfl
+theorem ofC_EdgeEnergy_arr : (JTables.ofC T).EdgeEnergy_arr = jflat2 121 28 T.EdgeEnergy_arr := rfl
+theorem ofC_AtomicLevelWidth_arr : (JTables.ofC T).AtomicLevelWidth_arr = jflat2 121 28 T.AtomicLevelWidth_arr := rfl
+theorem ofC_LineEnergy_arr : (JTables.ofC T).LineEnergy_arr = jflat2 121 383 T.LineEnergy_arr := rfl
+theorem ofC_FluorYield_arr : (JTables.ofC T).FluorYield_arr = jflat2 121 28 T.FluorYield_arr := rfl
+theorem ofC_JumpFactor_arr : (JTables.ofC T).JumpFactor_arr = jflat2 121 28 T.JumpFactor_arr := rfl
+theorem ofC_CosKron_arr : (JTables.ofC T).CosKron_arr = jflat2 121 15 T.CosKron_arr := rfl
+theorem ofC_RadRate_arr : (JTables.ofC T).RadRate_arr = jflat2 121 383 T.RadRate_arr := rfl
+theorem ofC_xrf_cross_sections_constants_full : (JTables.ofC T).xrf_cross_sections_constants_full = jflat3 121 9 4 T.xrf_cross_sections_constants_full := rfl
+theorem ofC_xrf_cross_sections_constants_auger_only : (JTables.ofC T).xrf_cross_sections_constants_auger_only = jflat3 121 9 4 T.xrf_cross_sections_constants_auger_only := rfl
+theorem ofC_NE_Photo_arr : (JTables.ofC T).NE_Photo_arr = ⟨121, T.NE_Photo⟩ := rfl
+theorem ofC_E_Photo_arr : (JTables.ofC T).E_Photo_arr = jdyn T.NE_Photo T.E_Photo_arr := rfl
+theorem ofC_CS_Photo_arr : (JTables.ofC T).CS_Photo_arr = jdyn T.NE_Photo T.CS_Photo_arr := rfl
+theorem ofC_CS_Photo_arr2 : (JTables.ofC T).CS_Photo_arr2 = jdyn T.NE_Photo T.CS_Photo_arr2 := rfl
+theorem ofC_NE_Rayl_arr : (JTables.ofC T).NE_Rayl_arr = ⟨121, T.NE_Rayl⟩ := rfl
+theorem ofC_E_Rayl_arr : (JTables.ofC T).E_Rayl_arr = jdyn T.NE_Rayl T.E_Rayl_arr := rfl
+theorem ofC_CS_Rayl_arr : (JTables.ofC T).CS_Rayl_arr = jdyn T.NE_Rayl T.CS_Rayl_arr := rfl
+theorem ofC_CS_Rayl_arr2 : (JTables.ofC T).CS_Rayl_arr2 = jdyn T.NE_Rayl T.CS_Rayl_arr2 := rfl
+theorem ofC_NE_Compt_arr : (JTables.ofC T).NE_Compt_arr = ⟨121, T.NE_Compt⟩ := rfl
+theorem ofC_E_Compt_arr : (JTables.ofC T).E_Compt_arr = jdyn T.NE_Compt T.E_Compt_arr := rfl
+theorem ofC_CS_Compt_arr : (JTables.ofC T).CS_Compt_arr = jdyn T.NE_Compt T.CS_Compt_arr := rfl
+theorem ofC_CS_Compt_arr2 : (JTables.ofC T).CS_Compt_arr2 = jdyn T.NE_Compt T.CS_Compt_arr2 := rfl
+theorem ofC_NE_Energy_arr : (JTables.ofC T).NE_Energy_arr = ⟨121, T.NE_Energy⟩ := rfl
+theorem ofC_E_Energy_arr : (JTables.ofC T).E_Energy_arr = jdyn T.NE_Energy T.E_Energy_arr := rfl
+theorem ofC_CS_Energy_arr : (JTables.ofC T).CS_Energy_arr = jdyn T.NE_Energy T.CS_Energy_arr := rfl
+theorem ofC_CS_Energy_arr2 : (JTables.ofC T).CS_Energy_arr2 = jdyn T.NE_Energy T.CS_Energy_arr2 := rfl
+theorem ofC_Nq_Rayl_arr : (JTables.ofC T).Nq_Rayl_arr = ⟨121, T.Nq_Rayl⟩ := rfl
+theorem ofC_q_Rayl_arr : (JTables.ofC T).q_Rayl_arr = jdyn T.Nq_Rayl T.q_Rayl_arr := rfl
+theorem ofC_FF_Rayl_arr : (JTables.ofC T).FF_Rayl_arr = jdyn T.Nq_Rayl T.FF_Rayl_arr := rfl
+theorem ofC_FF_Rayl_arr2 : (JTables.ofC T).FF_Rayl_arr2 = jdyn T.Nq_Rayl T.FF_Rayl_arr2 := rfl
+theorem ofC_Nq_Compt_arr : (JTables.ofC T).Nq_Compt_arr = ⟨121, T.Nq_Compt⟩ := rfl
+theorem ofC_q_Compt_arr : (JTables.ofC T).q_Compt_arr = jdyn T.Nq_Compt T.q_Compt_arr := rfl
+theorem ofC_SF_Compt_arr : (JTables.ofC T).SF_Compt_arr = jdyn T.Nq_Compt T.SF_Compt_arr := rfl
+theorem ofC_SF_Compt_arr2 : (JTables.ofC T).SF_Compt_arr2 = jdyn T.Nq_Compt T.SF_Compt_arr2 := rfl
+theorem ofC_NE_Fi_arr : (JTables.ofC T).NE_Fi_arr = ⟨121, T.NE_Fi⟩ := rfl
+theorem ofC_E_Fi_arr : (JTables.ofC T).E_Fi_arr = jdyn T.NE_Fi T.E_Fi_arr := rfl
+theorem ofC_Fi_arr : (JTables.ofC T).Fi_arr = jdyn T.NE_Fi T.Fi_arr := rfl
+theorem ofC_Fi_arr2 : (JTables.ofC T).Fi_arr2 = jdyn T.NE_Fi T.Fi_arr2 := rfl
+theorem ofC_NE_Fii_arr : (JTables.ofC T).NE_Fii_arr = ⟨121, T.NE_Fii⟩ := rfl
+theorem ofC_E_Fii_arr : (JTables.ofC T).E_Fii_arr = jdyn T.NE_Fii T.E_Fii_arr := rfl
+theorem ofC_Fii_arr : (JTables.ofC T).Fii_arr = jdyn T.NE_Fii T.Fii_arr := rfl
+theorem ofC_Fii_arr2 : (JTables.ofC T).Fii_arr2 = jdyn T.NE_Fii T.Fii_arr2 := rfl
+theorem ofC_NE_Photo_Total_Kissel_arr : (JTables.ofC T).NE_Photo_Total_Kissel_arr = ⟨121, T.NE_Photo_Total_Kissel⟩ := rfl
+theorem ofC_Electron_Config_Kissel_arr : (JTables.ofC T).Electron_Config_Kissel_arr = jflat2 121 31 T.Electron_Config_Kissel := rfl
+theorem ofC_NE_Photo_Partial_Kissel_arr : (JTables.ofC T).NE_Photo_Partial_Kissel_arr = ⟨121, fun i => some ⟨31, fun j => T.NE_Photo_Partial_Kissel i j⟩⟩ := rfl
+theorem ofC_E_Photo_Partial_Kissel_arr : (JTables.ofC T).E_Photo_Partial_Kissel_arr = jdynK T.NE_Photo_Partial_Kissel T.E_Photo_Partial_Kissel := rfl
+theorem ofC_Photo_Partial_Kissel_arr : (JTables.ofC T).Photo_Partial_Kissel_arr = jdynK T.NE_Photo_Partial_Kissel T.Photo_Partial_Kissel := rfl
+theorem ofC_Photo_Partial_Kissel_arr2 : (JTables.ofC T).Photo_Partial_Kissel_arr2 = jdynK T.NE_Photo_Partial_Kissel T.Photo_Partial_Kissel2 := rfl
+theorem ofC_NShells_ComptonProfiles_arr : (JTables.ofC T).NShells_ComptonProfiles_arr = ⟨121, T.NShells_ComptonProfiles⟩ := rfl
+theorem ofC_Npz_ComptonProfiles_arr : (JTables.ofC T).Npz_ComptonProfiles_arr = ⟨121, T.Npz_ComptonProfiles⟩ := rfl
+theorem ofC_UOCCUP_ComptonProfiles_arr : (JTables.ofC T).UOCCUP_ComptonProfiles_arr = jdyn T.NShells_ComptonProfiles T.UOCCUP_ComptonProfiles := rfl
+theorem ofC_pz_ComptonProfiles_arr : (JTables.ofC T).pz_ComptonProfiles_arr = jdyn T.Npz_ComptonProfiles T.pz_ComptonProfiles := rfl
+theorem ofC_Total_ComptonProfiles_arr : (JTables.ofC T).Total_ComptonProfiles_arr = jdyn T.Npz_ComptonProfiles T.Total_ComptonProfiles := rfl
+theorem ofC_Total_ComptonProfiles_arr2 : (JTables.ofC T).Total_ComptonProfiles_arr2 = jdyn T.Npz_ComptonProfiles T.Total_ComptonProfiles2 := rfl
+theorem ofC_Partial_ComptonProfiles_arr : (JTables.ofC T).Partial_ComptonProfiles_arr = jdynC T.NShells_ComptonProfiles T.Npz_ComptonProfiles T.UOCCUP_ComptonProfiles T.Partial_ComptonProfiles := rfl
+theorem ofC_Partial_ComptonProfiles_arr2 : (JTables.ofC T).Partial_ComptonProfiles_arr2 = jdynC T.NShells_ComptonProfiles T.Npz_ComptonProfiles T.UOCCUP_ComptonProfiles T.Partial_ComptonProfiles2 := rfl
+theorem ofC_Auger_Yields_arr : (JTables.ofC T).Auger_Yields_arr = jflat2 121 9 T.Auger_Yields := rfl
+theorem ofC_Auger_Rates_arr : (JTables.ofC T).Auger_Rates_arr = jflat2 121 996 T.Auger_Rates := rfl
+end
+
 end Xrl
